@@ -188,6 +188,7 @@ func TestVerifC17Views(t *testing.T) {
 		Views []struct {
 			Networks []string `json:"networks"`
 			Has      bool     `json:"has_answer"`
+			Answers  string   `json:"answers"` // "", other-name | no-answers | only-unparsable-answers | other-type
 		} `json:"views"`
 		vC17Fixed
 	}
@@ -208,26 +209,51 @@ func TestVerifC17Views(t *testing.T) {
 		var vcoq []string
 		var all []netip.Prefix
 		var desc []any
-		addView := func(i int, nets []string, pc []string, has bool) {
+		// ansShape: how the view's answer list is written. A view takes part in first-match selection whatever its
+		// answers are: one with no usable answer matches, has no record, and the query falls through.
+		//   0 = a record for another name, 1 = no answers at all, 2 = only unparsable answers,
+		//   3 = a record for another type, -1 = a record for the question (possibly next to an unparsable one)
+		addView := func(i int, nets []string, pc []string, has bool, ansShape int) {
 			vc := config.ViewConfig{Zone: fmt.Sprintf("v%d", i), Networks: nets}
+			shapeName := "record"
 			if has {
 				vc.Answers = []string{fmt.Sprintf("host.example. 60 IN A 192.0.2.%d", i)}
+				if ansShape == 2 {
+					vc.Answers = []string{"host.example. 60 IN A not-an-address", vc.Answers[0]}
+					shapeName = "record+unparsable"
+				}
 			} else {
-				vc.Answers = []string{fmt.Sprintf("other.example. 60 IN A 192.0.2.%d", i)}
+				switch ansShape {
+				case 1:
+					vc.Answers = nil
+					shapeName = "no-answers"
+				case 2:
+					vc.Answers = []string{"host.example. 60 IN A not-an-address", "@@ bogus"}
+					shapeName = "only-unparsable-answers"
+				case 3:
+					vc.Answers = []string{fmt.Sprintf("host.example. 60 IN TXT \"v%d\"", i)}
+					shapeName = "other-type"
+				default:
+					vc.Answers = []string{fmt.Sprintf("other.example. 60 IN A 192.0.2.%d", i)}
+					shapeName = "other-name"
+				}
 			}
 			cfg.Views = append(cfg.Views, vc)
 			vcoq = append(vcoq, fmt.Sprintf("([%s], %v)", strings.Join(pc, "; "), has))
-			desc = append(desc, map[string]any{"networks": nets, "has_answer": has})
+			desc = append(desc, map[string]any{"networks": nets, "has_answer": has, "answers": shapeName})
 		}
 		if fixed {
 			for i, fv := range corpus[c+len(corpus)].Views {
 				var pc []string
 				for _, e := range fv.Networks {
-					pf := netip.MustParsePrefix(e)
+					pf, err := netip.ParsePrefix(e)
+					if err != nil {
+						continue // an unparsable network entry is ignored
+					}
 					all = append(all, pf)
 					pc = append(pc, fmt.Sprintf("mk_prefix %v %s %d", pf.Addr().Is4(), vAddrBig(pf.Addr()).String(), pf.Bits()))
 				}
-				addView(i, fv.Networks, pc, fv.Has)
+				addView(i, fv.Networks, pc, fv.Has, map[string]int{"": 0, "other-name": 0, "no-answers": 1, "only-unparsable-answers": 2, "other-type": 3}[fv.Answers])
 			}
 		}
 		for i := 0; i < nv; i++ {
@@ -246,8 +272,14 @@ func TestVerifC17Views(t *testing.T) {
 				all = append(all, pf)
 				nets = append(nets, pf.String())
 				pc = append(pc, fmt.Sprintf("mk_prefix %v %s %d", pf.Addr().Is4(), vAddrBig(pf.Addr()).String(), pf.Bits()))
+				if r.Intn(8) == 0 { // an unparsable network entry next to it: ignored, never widening
+					nets = append(nets, []string{"10.0.0.0/33", "bogus", "2001:db8::/129", "10.0.0.0"}[r.Intn(4)])
+				}
 			}
-			addView(i, nets, pc, r.Intn(4) != 0)
+			// a view without a record for the question (other name / other type / NO answers / only unparsable answers)
+			// is as likely in first position as anywhere: 2 views in 5
+			has := r.Intn(5) >= 2
+			addView(i, nets, pc, has, r.Intn(4))
 		}
 		v := New(cfg)
 		var w middleware.Transport
